@@ -18,6 +18,7 @@ import CorgiProofs.RealDeriv
 import CorgiProofs.RealClosures
 import CorgiProofs.LinearHeap
 import CorgiProofs.Adjoint
+import CorgiProofs.AdjointMatmul
 
 namespace Corgi
 
@@ -247,8 +248,27 @@ theorem C02_reshape_closure_is_transpose (a x t back : Tensor S) (d : List Nat)
       · simp only [pure, Except.pure, Except.ok.injEq] at hb; rw [← hb]
   rw [h1, h2]
 
+/-- **`matmul`, left operand: the summation kernel of the closure is the transpose of the product's.**
+    With `A : m×k`, `B : k×n` and a delta `X : m×n` given entry-wise (any entry functions, any sizes), over a
+    commutative ring: `⟨A·B, X⟩ = ⟨A, X·Bᵀ⟩` — the closure's product for the left operand
+    (`linEntry_matmul_left`: `specMatmul` of the delta with `b` under the flags the code passes) is built from
+    exactly the right-hand kernel.  PARTIAL: stated on `sumRange` kernels, not yet lifted through
+    `Tensor.ofFn` / `get` index bookkeeping to `specMatmul` on tensors with batch dimensions. -/
+theorem C02_matmul_kernel_is_transpose_left [AddLaws S] [MulLaws S] [CommLaws S] (m k n : Nat) (A B X : Nat → Nat → S) :
+    sumRange m (fun r => sumRange n (fun j => sumRange k (fun t => A r t * B t j) * X r j))
+      = sumRange m (fun r => sumRange k (fun t => A r t * sumRange n (fun j => B t j * X r j))) :=
+  matmul_kernel_adjoint_left m k n A B X
+
+/-- **`matmul`, right operand**: `⟨A·B, X⟩ = ⟨B, Aᵀ·X⟩` on the same kernels. -/
+theorem C02_matmul_kernel_is_transpose_right [AddLaws S] [MulLaws S] [CommLaws S] (m k n : Nat) (A B X : Nat → Nat → S) :
+    sumRange m (fun r => sumRange n (fun j => sumRange k (fun t => A r t * B t j) * X r j))
+      = sumRange k (fun t => sumRange n (fun j => B t j * sumRange m (fun r => A r t * X r j))) :=
+  matmul_kernel_adjoint_right m k n A B X
+
 end Corgi
 
 #print axioms Corgi.exHeap_shapeOK
 #print axioms Corgi.C02_sum_closure_is_transpose
 #print axioms Corgi.C02_reshape_closure_is_transpose
+#print axioms Corgi.C02_matmul_kernel_is_transpose_left
+#print axioms Corgi.C02_matmul_kernel_is_transpose_right
